@@ -9,4 +9,5 @@ var All = map[string]func(*Ctx){
 	"C05": C05,
 	"C06": C06,
 	"C07": C07,
+	"C08": C08,
 }
